@@ -1275,6 +1275,37 @@ impl World {
     /// Bind the clones the real DOM produced to the model's expectation,
     /// checking isomorphism (C11), then register them in the model.
     #[allow(clippy::too_many_arguments)]
+    /// Forest invariants of what a clone call returned, through the public API only and without the
+    /// model (so they are judged even when the clone cannot be bound to its source afterwards).
+    fn clone_result_is_a_forest(&self, t: usize, returned: &[Ref]) -> R {
+        let dom = &self.real[t];
+        let mut seen: HashSet<Ref> = HashSet::new();
+        for root in returned {
+            let mut stack = vec![*root];
+            while let Some(r) = stack.pop() {
+                if !seen.insert(r) {
+                    return Err(fail("c09:child-listed-twice", "an instance created by a clone call is listed by two parents (or twice)".into()));
+                }
+                let Some(inst) = dom.get_by_ref(r) else {
+                    return Err(fail("c09:dangling-child", "a clone lists a child that cannot be looked up".into()));
+                };
+                for c in inst.children() {
+                    match dom.get_by_ref(*c) {
+                        None => return Err(fail("c09:dangling-child", "a clone lists a child that cannot be looked up".into())),
+                        Some(ci) if ci.parent() != r => {
+                            return Err(fail(
+                                "c09:child-parent-disagree",
+                                format!("clone {} lists {} as a child, but that instance names another parent", inst.name, ci.name),
+                            ))
+                        }
+                        Some(_) => stack.push(*c),
+                    }
+                }
+            }
+        }
+        Ok(())
+    }
+
     fn bind_clones(
         &mut self,
         s: usize,
@@ -1288,6 +1319,7 @@ impl World {
         if originals.len() != returned.len() {
             return Err(fail("c11:return-count", "wrong number of clone roots returned".into()));
         }
+        self.clone_result_is_a_forest(t, returned)?;
         // original -> its clones (a referent listed twice, or listed below another listed one, is
         // cloned more than once), by parallel walk; every walk keeps its own parent / children links
         let mut clones_of: HashMap<Ref, Vec<Ref>> = HashMap::new();
